@@ -1,0 +1,11 @@
+//go:build !verif
+
+package util
+
+import gotime "time"
+
+// The following are no-ops in regular builds. (See hook_verif.go.)
+
+func verifRepeatInterval(interval gotime.Duration) gotime.Duration { return interval }
+
+func verifRepeatStop(int64) bool { return false }
